@@ -425,7 +425,7 @@ def _task_loss(rng):
 
 def gen_fit(rng, tier):
     ops = []
-    for _ in range(36 if tier == "quick" else 300):
+    for _ in range(30 if tier == "quick" else 300):
         task, loss = _task_loss(rng)
         samples = rng.range(24, 90)
         d, ncat = rng.range(1, 4), rng.range(0, 2)
@@ -440,7 +440,7 @@ def gen_fit(rng, tier):
             rng.choice(["gboost", "gboost", "tboost"]), shrink,
             rng.choice(["off", "off", "subsample", "bootstrap", "wei_loss_bootstrap", "wei_grad_bootstrap"]),
             ",".join(protos), f2h(rng.choice([0.0, 0.05, 0.3, 1.0])), rng.choice([10, 16, 100])))
-    for _ in range(24 if tier == "quick" else 200):
+    for _ in range(20 if tier == "quick" else 200):
         task, loss = _task_loss(rng)
         smooth = loss in ("mse", "cauchy", "s-classnll", "s-logistic", "s-exponential", "s-squared-hinge")
         model = rng.choice(["ordinary", "ordinary", "lasso", "ridge", "elastic_net"])
@@ -548,6 +548,9 @@ def oracle(op, res):
 # the harness obtained by predicting with the stored per-fold / final models (store_stats' twelve numbers)
 
 FIT_RTOL = 1e-9
+# errors / losses are differences of O(1) predictions and targets: a value recomputed in another association order differs
+# by ~1e-16 absolutely, which is not small relative to an error that is itself at rounding level
+FIT_ATOL = 1e-11
 PERCENTILES = [1.0, 5.0, 10.0, 20.0, 50.0, 80.0, 90.0, 95.0, 99.0]
 STAT_NAMES = ["mean", "stdev", "count"] + [f"per{int(p):02d}" for p in PERCENTILES]
 
@@ -585,9 +588,9 @@ def cmp_stats(what, reported, xs):
                 if not ((g != g or abs(g) <= tiny) and (w != w or abs(w) <= tiny)):
                     return f"{what}: reported stdev {g!r} vs recomputed {w!r}"
                 continue
-            if abs(g - w) > FIT_RTOL * max(abs(g), abs(w)) + 1e-7 * scale:
+            if abs(g - w) > FIT_RTOL * max(abs(g), abs(w)) + 1e-7 * scale + FIT_ATOL:
                 return f"{what}: reported stdev {g!r} vs recomputed {w!r}"
-        elif not vlib.close(g, w, FIT_RTOL, 1e-300):
+        elif not vlib.close(g, w, FIT_RTOL, 0.0 if name == "count" else FIT_ATOL):
             return f"{what}: reported {name} {g!r} != {w!r} recomputed from the stored model's predictions ({len(xs)} samples)"
     return None
 
@@ -660,7 +663,7 @@ def oracle_fit(op, res):
                 for name, g, xs in (("train error", last[0], tr_e), ("train loss", last[1], tr_l),
                                     ("valid error", last[2], vd_e), ("valid loss", last[3], vd_l)):
                     w = math.fsum(xs) / max(len(xs), 1)
-                    if not vlib.close(g, w, FIT_RTOL, 1e-300):
+                    if not vlib.close(g, w, FIT_RTOL, FIT_ATOL):
                         return (f"{where}: mean {name} of the optimum round {rows - 1} is reported as {g!r}, the kept model "
                                 f"({nlearners} weak learners) gives {w!r}")
                 # ... and it is the round of the last accepted improvement of the error history, not stopped before
